@@ -964,6 +964,9 @@ impl Interpreter {
             // Root the module environment - it must persist for live bindings
             self.root_guard.guard(module_env.clone());
             self.env = module_env.cheap_clone();
+            // Known to abort_active_execution from here on, so that a failure
+            // before the VM starts does not leave it rooted
+            self.active_module_env = Some(module_env.cheap_clone());
             (Some(saved), Some(module_env))
         } else {
             (None, None)
@@ -993,7 +996,13 @@ impl Interpreter {
             if let Ok(StepResult::Complete(_)) = &result
                 && let Some(ref path) = module_path
             {
-                self.finalize_module_exports(path.clone(), module_env);
+                self.finalize_module_exports(path.clone(), module_env.cheap_clone());
+            }
+
+            // Once the run is over the module environment is no longer a permanent root
+            if matches!(&result, Ok(StepResult::Complete(_)) | Err(_)) {
+                self.unroot(&module_env);
+                self.active_module_env = None;
             }
         }
 
@@ -1085,11 +1094,13 @@ impl Interpreter {
             }
         }
 
-        // Root the module namespace object (lives forever)
+        // Root the module namespace object (lives as long as it is the module of this path)
         self.root_guard.guard(module_obj.clone());
 
-        // Cache it by normalized path
-        self.loaded_modules.insert(module_path, module_obj);
+        // Cache it by normalized path; a namespace it replaces is no longer a root
+        if let Some(old) = self.loaded_modules.insert(module_path, module_obj) {
+            self.unroot(&old);
+        }
     }
 
     /// Run a bytecode VM to completion or suspension
@@ -1415,13 +1426,21 @@ impl Interpreter {
             self.call_stack.truncate(call_stack);
             self.active_vm = None;
             self.active_saved_env = None;
-            self.active_module_env = None;
+            if let Some(module_env) = self.active_module_env.take() {
+                self.unroot(&module_env);
+            }
             self.active_module_path = None;
             // Continuations of the dead run must not be resumed by, or block, a later one
             self.suspended_for_order = None;
             self.wait_graph = WaitGraph::new();
             self.pending_orders.clear();
         }
+    }
+
+    /// Remove every permanent root entry of an object (allocation through the root
+    /// guard and an explicit guard() each add one)
+    fn unroot(&self, obj: &Gc<JsObject>) {
+        while self.root_guard.unguard(obj) {}
     }
 
     /// Finalize active execution (restore environment, finalize exports)
@@ -1438,8 +1457,12 @@ impl Interpreter {
 
             // Store the main module exports
             if let Some(path) = module_path {
-                self.finalize_module_exports(path, env);
+                self.finalize_module_exports(path, env.cheap_clone());
             }
+
+            // The run is over: the module environment stays alive through its
+            // namespace object and closures, not as a permanent root
+            self.unroot(&env);
         }
     }
 
@@ -1487,6 +1510,9 @@ impl Interpreter {
             let module_env = self.create_module_environment();
             self.root_guard.guard(module_env.clone());
             self.env = module_env.cheap_clone();
+            // Known to abort_active_execution from here on, so that a failure
+            // before the VM starts does not leave it rooted
+            self.active_module_env = Some(module_env.cheap_clone());
             (Some(saved), Some(module_env))
         } else {
             (None, None)
@@ -1624,6 +1650,9 @@ impl Interpreter {
             let module_env = self.create_module_environment();
             self.root_guard.guard(module_env.clone());
             self.env = module_env.cheap_clone();
+            // Known to abort_active_execution from here on, so that a failure
+            // before the VM starts does not leave it rooted
+            self.active_module_env = Some(module_env.cheap_clone());
             (Some(saved), Some(module_env))
         } else {
             (None, None)
